@@ -237,7 +237,7 @@ Proof.
   - exists [], c. split; [reflexivity|]. repeat split; auto.
     intros f n r rcx acc _ Hn Hi Hlast. destruct n as [|n]; [cbn in Hn; lia|].
     cbn [flat map concat app fields_loop].
-    destruct (proj2 (w_field_stop_ok p c Hp) r rcx) as (oid & Hs). rewrite Hs. cbn [bind fst ttype_eqb].
+    destruct (proj2 (w_field_stop_ok p c Hp) r rcx (proj2 Hi)) as (oid & Hs). rewrite Hs. cbn [bind fst ttype_eqb].
     rewrite app_nil_r. f_equal. f_equal. f_equal.
     destruct p; cbn [rlast_upd]; auto. rewrite <- (Hlast eq_refl). symmetry. apply rctx_eta.
   - inversion HF as [|? ? Hx Ht]; subst. cbn [snd] in Hx.
@@ -286,7 +286,7 @@ Proof.
       intros f n r rcx acc Hv Hn Hi Hlast.
       destruct n as [|n]; [cbn in Hn; lia|]. cbn [fields_loop].
       rewrite app_nil_r, !flat_app, <- !app_assoc.
-      rewrite Hr1 by auto. cbn [bind].
+      rewrite Hr1 by (auto; exact (proj2 Hi)). cbn [bind].
       cbn [fst snd]. rewrite (ttype_eqb_nonstop _ (ttype_of_nonstop x)).
       rewrite Hr2; [|apply (Hv (id, x)); left; reflexivity|apply idle_rlast_upd; exact Hi].
       cbn [bind].
